@@ -568,6 +568,59 @@ impl Receiver {
     }
 }
 
+/// Points deleted by each pool update (index-aligned with the pool).
+pub fn pool_delete_points(pool: &[Upd]) -> Vec<BTreeSet<(u64, u32)>> {
+    pool.iter()
+        .map(|u| match Update::decode_v1(&u.v1) {
+            Ok(d) => yrs::verif::update_dump(&d).delete_set.iter().flat_map(|(c, s, e)| (*s..*e).map(move |k| (*c, k))).collect(),
+            Err(_) => BTreeSet::new(),
+        })
+        .collect()
+}
+
+/// Has the receiver deleted sequence items on its own account - i.e. ids that no delivered update
+/// deletes, that are no map entries (losers of a write are deleted by every replica alike) and whose
+/// parent type is alive (children of a deleted type are marked with it)? With automatic formatting
+/// clean-up on, a replica removes format marks that became redundant while it applied a remote
+/// update: those are operations of its own, unknown to the pool, so the pool's reference results do
+/// not describe this replica any more.
+pub fn receiver_made_own_deletions(pool_ds: &[BTreeSet<(u64, u32)>], mask: u32, rep: &Replica) -> bool {
+    if !rep.cfg.cleanup {
+        return false;
+    }
+    let sd = rep.store_dump();
+    let mut type_deleted: HashMap<(u64, u32), bool> = HashMap::new();
+    for (_, list) in &sd.clients {
+        for b in list {
+            if b.branch.is_some() {
+                type_deleted.insert(b.id, b.deleted);
+            }
+        }
+    }
+    for (_, list) in &sd.clients {
+        for b in list {
+            if b.kind != yrs::verif::BlockKind::Item || !b.deleted || b.parent_sub.is_some() {
+                continue;
+            }
+            let parent_alive = match &b.parent {
+                yrs::verif::ParentDump::Root(_) => true,
+                yrs::verif::ParentDump::Nested(p) => !type_deleted.get(p).copied().unwrap_or(true),
+                _ => false,
+            };
+            if !parent_alive {
+                continue;
+            }
+            for k in b.id.1..b.id.1 + b.len {
+                let p = (b.id.0, k);
+                if !(0..pool_ds.len()).any(|i| mask & (1 << i) != 0 && pool_ds[i].contains(&p)) {
+                    return true;
+                }
+            }
+        }
+    }
+    false
+}
+
 pub struct LatticeNode<'a> {
     pub recv: &'a Receiver,
     pub path: &'a [Edge],
@@ -591,6 +644,7 @@ pub fn lattice(
 ) {
     let n = pool.len();
     let full_mask: u32 = if n >= 32 { u32::MAX } else { (1u32 << n) - 1 };
+    let pool_ds = pool_delete_points(pool);
     let mut seen: HashMap<(u32, u64, usize), ()> = HashMap::new();
     let mut queue: VecDeque<(Vec<Edge>, usize)> = VecDeque::new();
     // initial node
@@ -712,6 +766,11 @@ pub fn lattice(
                 }
                 None => continue,
             };
+            if receiver_made_own_deletions(&pool_ds, r.mask, r.rep()) {
+                // the receiver cleaned up formatting marks on its own account: outside the pool's model
+                ctx.count("receiver_own_cleanup_pruned", 1);
+                continue;
+            }
             ctx.count("lattice_edges", 1);
             let node = LatticeNode {
                 recv: &r,
